@@ -2727,3 +2727,34 @@ Theorem stale_loop_spec sc h us t rej0 :
 Proof.
   intros HI Hrows. exact (stale_loop_gen sc h (eff_status sc t) us t rej0 (inv_trks_nodup t HI) (fun x => eq_refl) Hrows).
 Qed.
+
+(* "recorded as confirmed only in a block of the active chain": while a block is connected, a row is
+   (newly) recorded as confirmed only with the height of that block and only when the block contains
+   its penalty; every other confirmed row is an unchanged one.  memo_ok (the carrier's memo holds no
+   ConfirmedIn answer) is part of chain_inv, hence holds in every reachable state. *)
+Theorem confirmed_only_by_block le sc t b h t' u k k' :
+  Inv t -> memo_ok t -> r_block_connected le sc t b h = Ok tt t' ->
+  find_trk (db_trks t) u = Some k -> find_trk (db_trks t') u = Some k' -> t_conf k' = true ->
+  (memN (t_penalty k) (keys_of (ib_data b)) = true /\ k' = restamp k h true) \/
+  (memN (t_penalty k) (keys_of (ib_data b)) = false /\ k' = k).
+Proof.
+  intros HI Hm E Hf Hf' Hc'. destruct (r_block_connected_facts le sc t b h t' HI E) as [lim [t5 F]].
+  rewrite (rf_rows _ _ _ _ _ _ _ F), Hf in Hf'. unfold fate in Hf'.
+  destruct (memN (t_penalty k) (keys_of (ib_data b))); [left; inversion Hf'; auto|right; split; [reflexivity|]].
+  destruct (mem_uuid (trk_uuid k) (reorged t)).
+  { destruct (trk_rejected _ k); [discriminate|]. inversion Hf'. subst k'. discriminate. }
+  destruct (t_conf k) eqn:Ec.
+  { destruct (N.eqb _ _); [discriminate|]. inversion Hf'. reflexivity. }
+  destruct (N.leb (t_height k) lim); [|inversion Hf'; reflexivity].
+  destruct (status_rejected _); [discriminate|]. inversion Hf'. subst k'. unfold stale_upd in *.
+  destruct (blk_eff sc t h (t_penalty k)) eqn:Ee; cbn [t_conf restamp] in Hc'; try congruence.
+  exfalso. exact (blk_eff_not_confirmed sc t h _ _ Hm Ee).
+Qed.
+
+Theorem memo_ok_reachable le c h0 boot t0 hist :
+  init c h0 boot = Some t0 -> NoDup (map fst boot) -> fresh_hashes le t0 hist ->
+  Forall not_abort (snd (run le t0 hist)) -> memo_ok (fst (run le t0 hist)).
+Proof.
+  intros Hi Hnd Hf Hna.
+  exact (ci_memo _ (chain_inv_run le hist t0 (inv_init _ _ _ _ Hi) (chain_inv_init _ _ _ _ Hi Hnd) Hf Hna)).
+Qed.
